@@ -267,6 +267,24 @@ fn plain_cases(tier: Tier) -> Vec<Case> {
             }
         }
     }
+    // a handler that takes *long* (100 s on the virtual clock): a parked send stays parked however
+    // long it takes - no patience runs out
+    for &mb in &mbs {
+        if mb == Mailbox::U {
+            continue;
+        }
+        let long = Work { sleep: 100_000, ..Work::default() };
+        for p in [vec![L::SendAddr, L::SendAddr, L::SendAddr], vec![L::SendSnd, L::SendWSnd, L::SendSnd, L::SendAddr]] {
+            let mut c = make_case(&[p], mb, long, false, false, None);
+            c.exec.horizon = 600_000;
+            c.exec.real_crosscheck = false;
+            v.push(c);
+        }
+        let mut c = make_case(&[vec![L::SendAddr, L::SendAddr], vec![L::SendSnd, L::SendSnd]], mb, long, false, false, Some(3));
+        c.exec.horizon = 600_000;
+        c.exec.real_crosscheck = false;
+        v.push(c);
+    }
     // a weak sender is a weak sender, whoever made it: the same through the handles the actor's
     // own context mints (handed to other tasks)
     CTX_MADE.with(|c| c.set(true));
